@@ -16,6 +16,9 @@ Oracle (real code only; formulas typed here from the textbook definitions, const
   warning iff not neutral (outside the stated tolerance band), charges of the dict form from a hand-written table;
   A = (2 pi N_A rho b0)^(1/2) (e^2/(4 pi eps0 eps_r k T))^(3/2), B = (2 e^2 N_A rho b0/(eps0 eps_r k T))^(1/2) on every path and
   the paths against each other (1e-9); ln gamma formulas; a -> 0 and I = 0 limits; products = exp(sum nu ln gamma).
+  Vectorised molalities (one numpy array per ion: list of rows, k x m array, Quantity array, list of Quantity rows, dict of rows) against
+  the sample-wise scalar calls; UncertainQuantity molalities; chempy.units.allclose called directly on every argument shape its branches
+  distinguish, against the definition |a-b| <= rtol|a| + atol; the base class call returns None.
   Every real call of the oracle goes through `observed`: the arguments must be unchanged after the call (value-level snapshot of
   lists, dicts, arrays, scalar quantities) and a second call on the SAME objects must reproduce value, exception class and warning;
   the permuted ionic-strength call is built from the same molality objects, followed by the original order once more.
@@ -212,6 +215,11 @@ class C18(Property):
         'permutation of the dict form: follows from perm_invariant + the by-key theorems but is not stated separately',
         'backend= of A / B / log-gamma (numpy, math, sympy): the translator maps every backend to the same Lean text; oracle uses the default backend only',
         'inputs are not modified and repeated calls reproduce (histories): oracle only — the functional model cannot express aliasing',
+        'UncertainQuantity molalities (allclose unwraps them, units.py:524-527): magnitudes only, by correspondence + oracle; the propagated '
+        'uncertainty of the result is not part of the property and not checked',
+        'allclose on arrays of DIFFERENT lengths (numpy broadcasting in abs(a-b), zip truncation of d and lim) and on nested lists: not '
+        'reachable from ionic_strength, not modelled; the modelled shapes are scalar, equal-length arrays (array atol), scalar vs array, '
+        'flat lists, list vs scalar',
         'values of the physical constants: read from the installed quantities, not derived',
     )
     anchors = (('chempy/electrolytes.py', 'ionic_strength'), ('chempy/units.py', 'allclose'),
@@ -505,9 +513,11 @@ class C18(Property):
     def _gen_ac(self, rng):
         """direct calls of chempy.units.allclose on the argument shapes its branches distinguish"""
         lu = lambda lo, hi: float(self._dec(rng, lo, hi, 6))
-        shape = rng.choice(['arr', 'arr', 'scalar_arr', 'list', 'list', 'list_scalar', 'scalar'])
+        shape = rng.choice(['arr', 'scalar_arr', 'list', 'list', 'list_scalar', 'scalar', 'bc', 'bc', 'bc', 'bc'])
         rtol = rng.choice([1e-8, 1e-8, 1e-3, 0.0])
         n = rng.randint(1, 5)
+        if shape == 'bc':
+            return self._gen_ac_bc(rng, rtol, lu)
 
         def pairs(n, atols):
             a, b = [], []
@@ -545,6 +555,38 @@ class C18(Property):
             a, b = pairs(1, [atol])
             a, b = a[0], b[0]
         return {'kind': 'ac', 'shape': shape, 'a': a, 'b': b, 'rtol': rtol, 'atol': atol}
+
+    def _gen_ac_bc(self, rng, rtol, lu):
+        """a, b, atol each a number, a one-element array or an array of the common length n (numpy broadcasting); 15 % with a shape
+        that cannot be broadcast (b: compares unequal; atol: ValueError); optionally with units, any of the three an UncertainQuantity"""
+        n = rng.randint(2, 5)
+        kinds = {k: rng.choice(['scalar', 'one', 'full', 'full']) for k in ('a', 'b', 'atol')}
+        if all(v == 'scalar' for v in kinds.values()) and rng.random() < 0.7:
+            kinds[rng.choice(['a', 'b', 'atol'])] = 'full'
+        bad = None
+        r = rng.random()
+        if r < 0.08:
+            kinds['a'], kinds['b'], bad = 'full', 'longer', 'b'
+        elif r < 0.15:
+            kinds['a'], kinds['atol'], bad = 'full', 'longer', 'atol'
+        ln = lambda k: {'scalar': None, 'one': 1, 'full': n, 'longer': n + 1}[kinds[k]]
+        N = max([x for x in (ln('a'), ln('b'), ln('atol')) if x] or [1])
+        xs = [lu(1e-6, 1e3) * rng.choice([1, -1]) for _ in range(N)]
+        ats = [rng.choice([0.0, lu(1e-12, 1e-2)]) for _ in range(N)]
+        take = lambda vals, k: vals[0] if ln(k) is None else vals[:ln(k)]
+        a = take(xs, 'a')
+        atol = take(ats, 'atol')
+        bs = []
+        for i in range(N):
+            xa = xs[0] if ln('a') in (None, 1) else xs[min(i, len(xs) - 1)]
+            at = ats[0] if ln('atol') in (None, 1) else ats[min(i, len(ats) - 1)]
+            thr = abs(xa) * rtol + at
+            dev = thr * rng.choice([0.0, 0.3, 0.3, 0.3, 3.0]) if rng.random() < 0.85 else abs(xa) * 0.5
+            bs.append(xa + dev * rng.choice([1, -1]))
+        b = take(bs, 'b')
+        units = rng.random() < 0.4
+        uq = [k for k in ('a', 'b', 'atol') if units and rng.random() < 0.35]
+        return {'kind': 'ac', 'shape': 'bc', 'a': a, 'b': b, 'rtol': rtol, 'atol': atol, 'units': units, 'uq': uq, 'bad': bad}
 
     # ---- real calls of the new kinds
     def _build_vec(self, c):
@@ -587,7 +629,19 @@ class C18(Property):
         from chempy.units import allclose
         sh = c['shape']
         a, b, atol = c['a'], c['b'], c['atol']
-        if sh == 'arr':
+        if sh == 'bc':
+            import quantities as pq
+            from chempy.units import default_units as u
+
+            def wrap(k, v):
+                v = np.array(v) if isinstance(v, list) else v
+                if not c['units']:
+                    return v
+                if k in c['uq']:
+                    return pq.UncertainQuantity(v, u.molal, abs(np.asarray(v, dtype=float)) * 0.01)
+                return v * u.molal
+            a, b, atol = wrap('a', a), wrap('b', b), wrap('atol', atol)
+        elif sh == 'arr':
             a, b, atol = np.array(a), np.array(b), np.array(atol)
         elif sh == 'scalar_arr':
             b = np.array(b)
@@ -636,15 +690,40 @@ class C18(Property):
             return 'warning issued although warn=False'
         return None
 
+    @staticmethod
+    def _oracle_ac_bc(c, r):
+        """the definition over the full broadcast shape of (a, b, atol): one truth value"""
+        if c.get('bad') == 'atol':
+            return 'allclose accepted an atol that cannot be broadcast (returned %r)' % (r,)
+        size = lambda v: len(v) if isinstance(v, list) else None
+        sizes = [x for x in (size(c['a']), size(c['b']), size(c['atol'])) if x is not None]
+        if c.get('bad') == 'b':
+            return None if not bool(r) else 'arrays of lengths %r and %r compare equal' % (size(c['a']), size(c['b']))
+        N = max(sizes) if sizes else 1
+        if any(x not in (1, N) for x in sizes):
+            return 'harness: shapes %r are not broadcastable' % (sizes,)
+        el = lambda v, i: Fraction(v) if not isinstance(v, list) else Fraction(v[0] if len(v) == 1 else v[i])
+        want = all(abs(el(c['a'], i) - el(c['b'], i)) <= abs(el(c['a'], i)) * Fraction(c['rtol']) + el(c['atol'], i) for i in range(N))
+        if bool(r) != want:
+            return ('allclose(%r, %r, rtol=%r, atol=%r)%s = %r; |a-b| <= rtol|a| + atol on every element of the broadcast shape (%d) gives %r'
+                    % (c['a'], c['b'], c['rtol'], c['atol'], ' [molal, UncertainQuantity: %s]' % c['uq'] if c['units'] else '', bool(r), N, want))
+        return None
+
     def _oracle_ac(self, c):
         rec = Recorder()
         try:
             r = self._call_ac(c, rec)
         except Exception as e:
+            if c.get('bad') == 'atol' and isinstance(e, ValueError):
+                return None              # an atol that cannot be broadcast against a is refused
             return 'allclose raised %s: %s' % (exc_name(e), str(e)[:80])
         if rec.problem:
             return rec.problem
+        if not isinstance(r, bool) and getattr(r, 'shape', ()) != ():
+            return 'allclose returned an array instead of one truth value: %r' % (r,)
         sh, rtol = c['shape'], c['rtol']
+        if sh == 'bc':
+            return self._oracle_ac_bc(c, r)
         ok = lambda x, y, t: abs(Fraction(x) - Fraction(y)) <= abs(Fraction(x)) * Fraction(rtol) + Fraction(t)
         a, b, atol = c['a'], c['b'], c['atol']
         if sh == 'scalar':
@@ -949,7 +1028,12 @@ class C18(Property):
                     return exc_name(r)
                 return ([float(x) for x in self._vec_mags(c, r)], 'W' if w else '-')
             if kd == 'ac':
-                r = self._call_ac(c)
+                try:
+                    r = self._call_ac(c)
+                except ValueError:
+                    return 'ValueError'
+                if not isinstance(r, (bool,)) and getattr(r, 'shape', ()) != ():
+                    return 'raised:allclose returned an array %r' % (r,)
                 return 'true' if bool(r) else 'false'
         except Exception as e:
             return 'raised:' + exc_name(e) + ':' + str(e)[:80]
